@@ -747,6 +747,12 @@ func runNodeAlloc(c Case, choose func(int, []string) int) result {
 					if err == nil && slot > 0 {
 						held = append(held, heldT{a, slot})
 					}
+					if err != nil {
+						// a start-up that failed to obtain a node id cleans up with Release();
+						// that must not touch the locks of the nodes that do hold ids
+						_ = a.Release()
+						w.m.checkForeignLocks(ti)
+					}
 				case "rel":
 					if len(held) == 0 {
 						continue
@@ -836,6 +842,20 @@ func (m *model) onAlloc(ti int, id string, err error) int {
 	}
 	m.live["nodeslot"][slot] = id
 	return slot
+}
+
+// checkForeignLocks: after a failed allocation and its Release every pre-filled slot and
+// every slot held by a live allocator still has its lock.
+func (m *model) checkForeignLocks(ti int) {
+	m.mu.Lock()
+	defer m.mu.Unlock()
+	for s := node.NodeIDMin; s <= node.NodeIDMax; s++ {
+		_, isLive := m.live["nodeslot"][s]
+		if (m.taken["nodeslot"][s] || isLive) && !m.marker("nodeslot", s) {
+			m.fail("C15/nodealloc/release-after-failed-allocation-frees-foreign-lock", fmt.Sprintf("task %d: AllocateNodeID found no free id, the allocator was then released; the lock of node-%04d, held by another node (pre-existing=%v, live allocator=%v), is gone: the next allocator will be given that id", ti, s, m.taken["nodeslot"][s], isLive))
+			return
+		}
+	}
 }
 
 func (m *model) onSlotRelStart(slot int) {
@@ -1201,6 +1221,10 @@ func TestReplay(t *testing.T) {
 	key, err := vkit.LoadReplay(path, &c)
 	if err != nil {
 		t.Fatal(err)
+	}
+	if strings.Contains(key, "/wiring/") {
+		replayWiring(t, path)
+		return
 	}
 	if strings.Contains(key, "/paths/") {
 		replayPath(t, path)
